@@ -766,6 +766,8 @@ POEDIT = [('absent', [], []), ('known', ['Polish'], []), ('known-other', ['Germa
           ('dup-same', ['Polish', 'Polish'], []), ('dup-different', ['Polish', 'German'], []), ('country', ['Polish'], ['POLAND']),
           ('countries', ['German'], ['GERMANY', 'AUSTRIA']), ('countries-same', ['German'], ['GERMANY', 'GERMANY']),
           ('known-variant', ['Brazilian Portuguese'], []), ('empty', [''], [])]
+# a Language with a non-principal territory or a linguistic modifier next to the name of the same language
+POEDIT_SAME = [(['pt_BR'], ['Portuguese']), (['de_AT'], ['German']), (['nl_BE'], ['Dutch']), (['sr@latin'], ['Serbian']), (['it_CH'], ['Italian']), (['pt_BR'], ['German'])]
 
 
 def path_shapes(ll, cc):
@@ -797,6 +799,10 @@ def check_cases(ctx):
                 for pname, pls, pcs in POEDIT[:6] if ctx.quick() else POEDIT:
                     template = path.endswith('.pot')
                     out.append(((opt, path, tuple(metas), tuple(pls), tuple(pcs), template), '%s/%s/%s/%s' % (opt, sname, lname, pname)))
+    for metas, pls in POEDIT_SAME:
+        for opt in (None, metas[0].split('@')[0].split('_')[0]):
+            for path in ('po/x.po', 'po/messages.po'):
+                out.append(((opt, path, tuple(metas), tuple(pls), (), False), 'poedit-same-language/%s' % metas[0]))
     # templates with every Language class, and non-templates named .pot (file type forced)
     for lname, metas in LANGVALS:
         for opt in (None, 'pl'):
